@@ -2510,7 +2510,7 @@ impl Server {
                     let option_str = String::from_utf8_lossy(option).to_uppercase();
                     match option_str.as_str() {
                         "EX" => {
-                            if i + 1 >= parts.len() {
+                            if i + 1 >= parts.len() || expiration.is_some() {
                                 return Ok(RespFrame::error("ERR syntax error"));
                             }
                             if let RespFrame::BulkString(Some(seconds_bytes)) = &parts[i + 1] {
@@ -2528,7 +2528,7 @@ impl Server {
                             return Ok(RespFrame::error("ERR invalid expire time"));
                         }
                         "PX" => {
-                            if i + 1 >= parts.len() {
+                            if i + 1 >= parts.len() || expiration.is_some() {
                                 return Ok(RespFrame::error("ERR syntax error"));
                             }
                             if let RespFrame::BulkString(Some(millis_bytes)) = &parts[i + 1] {
